@@ -92,7 +92,9 @@ type c03V struct {
 	From   []*c03V
 	Call   *ast.CallExpr // KUnk: the call that produced the value
 	Fn     *types.Func
-	LenOf  *c03V        // KUnk: the value is len(LenOf)
+	LenOf  *c03V // KUnk: the value is len(LenOf)
+	Cnt    int64 // KUnk with HasCnt: the count the value stands for under the one-iteration abstraction (c03_eval_count.go)
+	HasCnt bool
 	Keys   []*c03V      // KList built from a map literal: the keys, parallel to Elems
 	Lit    *ast.FuncLit // KFunc
 	Env    *c03Frame    // KFunc: the frame the literal was evaluated in
